@@ -427,7 +427,10 @@ DIFF: against `opAreaGeom` (exact) / `opLengthGeom` (Float instance). -/
 def judgeGC (tag : String) (g : BGeom) (rhs : Tok) : String :=
   let lines := SpecGC.lineLeaves g
   let nl := lines.length
-  match ratGeom g, rhs.map parseU64, lines.mapM ratRing with
+  -- third token: `op.Centroid(g)`: `err` (its `default` case: every geometry but a Polygon) or `pt:X:Y`
+  let centTok := (rhs.drop 2).headD ""
+  let isPoly := match g with | .polygon _ => true | _ => false
+  match ratGeom g, (rhs.take 2).map parseU64, lines.mapM ratRing with
   | some rg, [some a, some l], some rl =>
     let polys := SpecGC.polyLeaves rg
     let cs := polys.map fun p =>
@@ -452,6 +455,8 @@ def judgeGC (tag : String) (g : BGeom) (rhs : Tok) : String :=
       else if valid && !agree ia want then s!"SPEC {cls} op.Area={ia} but sum of shells-minus-holes of the polygons in the geometry={want}"
       else if !agree ia ma then s!"DIFF {cls} op.Area impl={ia} model={ma}"
       else if !fclose il ml 0 then s!"DIFF {cls} op.Length impl={il} model={ml}"
+      else if !isPoly && centTok != "err" then s!"DIFF {cls} op.Centroid of a geometry that is not a Polygon is not an error: {centTok}"
+      else if isPoly && centTok == "err" then s!"DIFF {cls} op.Centroid of a Polygon is an error"
       else s!"OK {cls}"
     | _ => if valid then s!"SPEC {cls} non-finite-area {rhs}" else s!"DIFF {cls} non-finite-area {rhs}"
   | none, _, _ => "OK opgc-skipped"
@@ -461,13 +466,17 @@ def judgeGC (tag : String) (g : BGeom) (rhs : Tok) : String :=
 def judgeToks (toks : Tok) : String :=
   let (lhs, rhs) := splitArrow toks
   let mods := rhs.filter (·.startsWith "modified:")
-  let rhs := rhs.filter (fun t => !t.startsWith "modified:")
+  let stale := rhs.filter (·.startsWith "stale:")
+  let rhs := rhs.filter (fun t => !t.startsWith "modified:" && !t.startsWith "stale:")
   match lhs with
   | kind :: tag :: rest =>
     if rhs.head? == some "harness-panic" then s!"DIFF {kind} harness-panic" else
     -- the measures are functions of the shape: a call that changes its receiver (seen by comparing
     -- the receiver's memory bit for bit before and after) violates the property whatever it returns
     if !mods.isEmpty then s!"SPEC {kind}-{tag}-receiver-modified {" ".intercalate mods}" else
+    -- history on one object: after the caller doubled every coordinate of the receiver in place (exact) the second
+    -- answer was not the first one scaled (×2, areas ×4) bit for bit: the function answered for a shape it remembered
+    if !stale.isEmpty then s!"SPEC {kind}-{tag}-stale-after-update the second call on the same object, after every coordinate was doubled in place, did not return the first answer scaled exactly ({" ".intercalate stale})" else
     match kind with
     | "area" | "cent" =>
       match Proto.pGeom 2 rest with
